@@ -66,6 +66,8 @@ def rGBody (withImmune : Bool) : RM (GBody Float) := do
   let im ← if withImmune then rN else pure 0
   return ⟨m, c, X, im != 0⟩
 
+instance : Inhabited (Pose Float × Vel Float) := ⟨(⟨⟨⟨1,0,0⟩,⟨0,1,0⟩,⟨0,0,1⟩⟩, ⟨0,0,0⟩⟩, ⟨⟨0,0,0⟩,⟨0,0,0⟩⟩)⟩
+
 def rHCParams : RM (HCParams Float) := do
   let k ← rF; let c ← rF; let us ← rF; let ud ← rF; let uv ← rF
   return ⟨k, c, us, ud, uv⟩
@@ -126,6 +128,72 @@ def handle (fn : String) : RM (Option (List Float)) := do
     let resid := maxAbs ((m33l Rq).zipWith (· - ·) (m33l o.X_FM.R))
     return some (pairOut b1 b2 (o.F_GB1, o.F_GB2) ++ [o.pe, o.power] ++ v6l o.q ++ v6l o.qdot ++ v6l o.f ++ [resid])
   | "pc" => return some [0]
+  -- ------------------------------------------------------------------ compliant contact (C37/C12/C13)
+  | "hc" =>
+    let nscene ← rN; let _ ← rList nscene tok
+    let nb ← rN; let vt ← rF
+    let kin ← rList (nb + 1) (do let X ← rPose; let V ← rVel; return (X, V))
+    let nc ← rN
+    let cs ← rList nc (do
+      let b1 ← rN; let b2 ← rN; let p1 ← rHCParams; let p2 ← rHCParams
+      let loc ← rV3; let n ← rV3; let depth ← rF; let radius ← rF
+      let k1 := kin.getD b1 default; let k2 := kin.getD b2 default
+      let q1 : HCParams Float := { p1 with stiffness := Float.pow p1.stiffness (2/3) }
+      let q2 : HCParams Float := { p2 with stiffness := Float.pow p2.stiffness (2/3) }
+      return ({ b1 := b1, b2 := b2, p1 := q1, p2 := q2, c := ⟨loc, n, depth, radius⟩,
+                X1 := k1.1, X2 := k2.1, V1 := k1.2, V2 := k2.2 } : HCContact Float))
+    return some (totals (nb + 1) (hcLoop fsqrt vt cs) ++ [hcPE fsqrt vt cs])
+  | "smooth" =>
+    let _bs ← rN; let _bh ← rN
+    let st ← rF; let di ← rF; let us ← rF; let ud ← rF; let uv ← rF; let vt ← rF; let cf ← rF; let bd ← rF; let bv ← rF
+    let radius ← rF; let loc ← rV3; let Xhs ← rPose
+    let Xs ← rPose; let Vs ← rVel; let Xh ← rPose; let Vh ← rVel
+    let o := smoothSphere fsqrt Float.tanh Float.pow ⟨st, di, us, ud, uv, vt, cf, bd, bv⟩ Xs Xh Vs Vh loc Xhs radius
+    return some (spfl o.F1 ++ spfl o.F2 ++ [o.pe])
+  | "expn" =>
+    let d0 ← rF; let d1 ← rF; let d2 ← rF; let cz ← rF; let maxF ← rF; let _mus ← rF; let _muk ← rF
+    let station ← rV3; let XP ← rPose; let X ← rPose; let V ← rVel
+    let (pz, vz) := expStationKin XP X V station
+    let o := expNormal Float.exp d0 d1 d2 cz maxF pz vz
+    return some [o.fzElas, o.fzDamp, o.fz]
+  | "ef" =>
+    let nscene ← rN; let _ ← rList nscene tok
+    let vt ← rF; let k ← rF; let c ← rF; let us ← rF; let ud ← rF; let uv ← rF
+    let _bOther ← rN
+    let X1 ← rPose; let V1 ← rVel; let X2 ← rPose; let V2 ← rVel
+    let ns ← rN
+    let outs ← rList ns (do
+      let area ← rF; let np ← rV3; let sp ← rV3
+      return efSpring fsqrt vt ⟨k, c, us, ud, uv⟩ area np sp X1 X2 V1 V2)
+    let F1 := outs.foldl (fun a o => SpF.add a o.F1) SpF.zero
+    let F2 := outs.foldl (fun a o => SpF.add a o.F2) SpF.zero
+    let pe := outs.foldl (fun a o => a + o.pe) 0
+    return some (spfl F1 ++ spfl F2 ++ [pe])
+  | "hertz" =>
+    let nscene ← rN; let _ ← rList nscene tok
+    let nb ← rN; let vtrans ← rF; let signif ← rF
+    let kin ← rList (nb + 1) (do let X ← rPose; let V ← rVel; return (X, V))
+    let nc ← rN
+    let res ← rList nc (do
+      let b1 ← rN; let b2 ← rN; let XBS1 ← rPose; let XBS2 ← rPose
+      let rMat : RM (HertzMat Float) := do
+        let k ← rF; let c ← rF; let us ← rF; let ud ← rF; let uv ← rF
+        return ⟨Float.pow k (2/3), c, us, ud, uv⟩
+      let m1 ← rMat; let m2 ← rMat
+      let normal ← rV3; let origin ← rV3; let depth ← rF; let R ← rF
+      let k1 := kin.getD b1 default; let k2 := kin.getD b2 default
+      let X_GS1 := k1.1.comp XBS1; let X_GS2 := k2.1.comp XBS2
+      let V_GS1 := frameVel k1.1 k1.2 XBS1; let V_GS2 := frameVel k2.1 k2.2 XBS2
+      let V12 := findRelativeVelocity X_GS1 V_GS1 X_GS2 V_GS2
+      -- X_S1S2.p = ~X_GS1 * p_GS2
+      let p12 := X_GS1.invApply X_GS2.p
+      let o := hertzContact fsqrt signif vtrans m1 m2 normal origin depth p12 V12.w V12.v R 1
+      let cpG := X_GS1.apply o.contactPt
+      let fG := X_GS1.R.mulVec o.force
+      let ap := compliantApply cpG fG k1.1 k2.1
+      return (o.valid, v3l cpG ++ v3l fG ++ [o.pe, o.powerLoss], [(b1, ap.1), (b2, ap.2)], o.pe))
+    let valid := res.filter (·.1)
+    return some (valid.flatMap (·.2.1) ++ totals (nb + 1) (valid.flatMap (·.2.2.1)) ++ [valid.foldl (fun a r => a + r.2.2.2) 0])
   | _ => return none
 
 def main : IO Unit := do
